@@ -4,6 +4,8 @@ E1 history BFS over declarations (constructor dict, add_parameter, remove_parame
 reached state build() is called twice (the first result is vandalised in between) and compared with an
 independent nested-loop product.
 """
+import itertools
+
 import numpy as np
 
 from mc.engine import hbfs
@@ -34,12 +36,16 @@ VALUES = {
     'one_tuple': lambda: [(10, 20)],
     'one_list': lambda: ([11, 12, 13],),
     'one_empty': lambda: [[]],
+    # nested collections of unequal lengths (layer sizes): each element is one value
+    'ragged': lambda: [[8], [8, 8], [16, 8, 4]],
+    'ragged_t': lambda: ((3,), (3, 3)),
 }
 EXPANDED = {
     'int': [7], 'str': ['xy'], 'empty': [], 'one': [1], 'two': [1, 2], 'tuple_rep': [1, 1], 'range2': [0, 1],
     'nparr': [1, 2], 'none': [None], 'strs': ['p', 'qq'], 'nested': [[1, 2], 'ab'], 'np2d': [[1, 2], [3, 4], [5, 6]], 'np0d': [5],
     'npdt': ['dt:2021-03-04T05:06:07.000000008', 'dt:2021-03-05T00:00:00.000000000'],
     'tuple_f': [1.0, 1.0], 'legacy_seq': [4, 5, 6], 'one_tuple': [[10, 20]], 'one_list': [[11, 12, 13]], 'one_empty': [[]],
+    'ragged': [[8], [8, 8], [16, 8, 4]], 'ragged_t': [[3], [3, 3]],
 }
 NAMES = ['pa', 'pb', 'pc']
 STARTS = {
@@ -363,6 +369,38 @@ def many_parameters_case(case):
     return n
 
 
+def wide_case(case):
+    """n declared parameters of which only those at the given positions have more than one value: whichever positions
+    those are, the earlier-declared one varies slowest."""
+    n, varying = case['n'], case['varying']
+    pl = ParameterList({f'q{i}': ([i * 10, i * 10 + 1, i * 10 + 2][:2 + (i % 2)] if i in varying else i * 10) for i in range(n)}
+                       if case['ctor'] else None)
+    if not case['ctor']:
+        for i in range(n):
+            pl.add_parameter(f'q{i}', [i * 10, i * 10 + 1, i * 10 + 2][:2 + (i % 2)] if i in varying else i * 10)
+    pools = [([i * 10, i * 10 + 1, i * 10 + 2][:2 + (i % 2)] if i in varying else [i * 10]) for i in range(n)]
+    exp = [dict(zip([f'q{i}' for i in range(n)], combo)) for combo in itertools.product(*pools)]
+    got = pl.build()
+    if got != exp or any(list(g) != list(e) for g, e in zip(got, exp)):
+        k = next((j for j, (g, e) in enumerate(zip(got, exp)) if g != e), None)
+        raise Violation(f'{n} parameters, those at positions {varying} multi-valued: build() differs from the product with the '
+                        f'first-declared parameter varying slowest (first difference at combination {k})',
+                        expected=[{f'q{i}': exp[k][f'q{i}'] for i in varying}] if k is not None else len(exp),
+                        observed=[{f'q{i}': got[k].get(f'q{i}') for i in varying}] if k is not None and k < len(got) else len(got))
+    return len(exp)
+
+
+def wide_cases(tier):
+    for n in (9, 10, 12, 17, 33) if tier == 'quick' else (9, 10, 11, 12, 13, 16, 17, 18, 33, 65):
+        for ctor in (True, False):
+            for pair in itertools.combinations(range(n), 2):
+                if n <= 12 or (pair[0] in (0, 1, 7, 8) or pair[1] in (n - 1, 8, 9, 16)):
+                    yield {'leg': 'wide', 'n': n, 'varying': list(pair), 'ctor': ctor}
+            if n <= 10:
+                for tri in itertools.combinations(range(n), 3):
+                    yield {'leg': 'wide', 'n': n, 'varying': list(tri), 'ctor': ctor}
+
+
 def churn_case(case):
     """Many short-lived parameter lists with long value collections of equal name and length but different contents
     (object addresses get reused): every build is the product of its own declaration."""
@@ -423,6 +461,18 @@ def run(ctx):
             ctx.report(case, v)
             return
     ctx.leg('many_parameters', note='1500 (thorough also 6000) declared parameters')
+    nw = 0
+    for case in wide_cases(ctx.tier):
+        if ctx.small and case['n'] > 10:
+            continue
+        ctx.traces += 1
+        nw += 1
+        try:
+            ctx.transitions += hbfs._guard(wide_case, case)
+        except Violation as v:
+            ctx.report(case, v)
+            return
+    ctx.leg('wide', cases=nw, note='9..33 declared parameters, every pair (n <= 12) / triple (n <= 10) of positions multi-valued')
     kinds = [k for k in VALUES if k != 'empty']
     nr = 0
     for v1 in kinds:
@@ -462,7 +512,7 @@ def run(ctx):
         plan = [('empty', vals, 2), ('dict_ab', vals[:5], 2)]
     elif ctx.tier == 'quick':
         vals = ['int', 'str', 'empty', 'one', 'two', 'tuple_rep', 'range2', 'nparr', 'none', 'np2d', 'np0d', 'npdt', 'tuple_f',
-                'legacy_seq', 'one_tuple', 'one_list', 'one_empty']
+                'legacy_seq', 'one_tuple', 'one_list', 'one_empty', 'ragged', 'ragged_t']
         plan = [('empty', vals, 3), ('dict_ab', vals[:5], 2), ('empty_dict', vals[:3], 1), ('dict_ba', vals[3:8], 2),
                 ('dict_special', vals[:5], 2)]
     else:
@@ -480,6 +530,9 @@ def run(ctx):
 
 
 def replay(case):
+    if case['leg'] == 'wide':
+        hbfs._guard(wide_case, case)
+        return
     if case['leg'] == 'redeclare':
         hbfs._guard(redeclare_case, case)
         return
